@@ -396,7 +396,7 @@ class Exec:
             return V('map', (self.fresh(arr.sort(), name), self.fresh(dom.sort(), name + '_dom')), **v.x)
         if k == 'ref': return V('ref', self.fresh(REF, name), **v.x)
         if k == 'tuple': return V('tuple', tuple(self.fresh_like(i, name) for i in v.t))
-        if k == 'none': return v
+        if k in ('none', 'opaque'): return v
         if k == 'obj':
             fields = self.c.get('obj_havoc_fields')
             if not fields: raise OutOfReach('loop-carried heap object without obj_havoc_fields in the contract')
@@ -465,6 +465,7 @@ class Exec:
         if o.kind == 'opaque': return V('opaque')
         if o.kind == 'cls':
             key = f'{o.t}.{e.attr}'
+            if key in st.vars: return st.vars[key]
             g = self.c.get('globals', {})
             if key in g: return g[key]
             return V('cls', key)
@@ -505,6 +506,10 @@ class Exec:
         return self.index(st, o, self.ev(e.slice, st), e.lineno)
 
     def arith(self, st, op, a, b, line=None):
+        hk = self.c.get('binop')
+        if hk is not None:
+            r = hk(self, st, op, a, b)
+            if r is not None: return r
         if a.kind == 'opaque' or b.kind == 'opaque': return V('opaque')
         if op == 'Pow':
             if b.kind not in ('int', 'bool'):
@@ -742,7 +747,7 @@ class Exec:
             name = fn.attr
             h = self.c.get('calls', {}).get(name)
             recv = self.ev(fn.value, st)
-            args = [self.ev(a, st) for a in e.args]
+            args = [self.ev(a.value if isinstance(a, ast.Starred) else a, st) for a in e.args]
             kwargs = {k.arg: self.ev(k.value, st) for k in e.keywords}
             if h is not None:
                 self.trusted.add(name)
@@ -753,7 +758,7 @@ class Exec:
             name = fn.id
             h = self.c.get('calls', {}).get(name)
             if h is not None:
-                args = [self.ev(a, st) for a in e.args]
+                args = [self.ev(a.value if isinstance(a, ast.Starred) else a, st) for a in e.args]
                 kwargs = {k.arg: self.ev(k.value, st) for k in e.keywords}
                 self.trusted.add(name)
                 r = h(self, st, None, args, kwargs)
@@ -973,7 +978,11 @@ class Exec:
         if ek.kind in ('num', 'int') and item.kind == 'real':
             raise OutOfReach('append widens element kind')
         if recv.kind == 'set':
-            t = z3.If(member(recv.t, unwrap(item, ek)), recv.t, z3.Concat(recv.t, z3.Unit(unwrap(item, ek))))
+            # set.add: a fresh set characterised through membership only (robust for quantified invariants)
+            x = unwrap(item, ek)
+            t = self.fresh(recv.t.sort(), 'setadd'); y = self.fresh(ek.sort(), 'y')
+            self.axioms += [z3.ForAll([y], member(t, y) == z3.Or(member(recv.t, y), y == x), patterns=[member(t, y)]),
+                            z3.Length(t) > 0, z3.Length(t) >= z3.Length(recv.t), z3.Length(t) <= z3.Length(recv.t) + 1]
         else:
             t = z3.Concat(recv.t, z3.Unit(unwrap(item, ek)))
             # frame facts of append (true of sequences; stated explicitly because E-matching does not see through the sequence theory)
@@ -994,6 +1003,9 @@ class Exec:
         if isinstance(target, ast.Attribute):
             if v.kind == 'comp': v = self.materialise(st, v)
             o = self.ev(target.value, st)
+            if o.kind == 'cls':                      # attribute of a module / class object: process-global state, kept as a state variable
+                st.vars[f'{o.t}.{target.attr}'] = v
+                return st
             if o.kind == 'ref' and self.c.get('ref_store'):
                 # store into a field of a symbolic object: the contract decides what must hold of the stored value (obligations), no frame is kept
                 self.c['ref_store'](self, st, o, target.attr, v)
@@ -1053,7 +1065,7 @@ class Exec:
 
     def s_If(self, n, st):
         st = st.fork()
-        c = z3.simplify(truthy(self.ev(n.test, st)))
+        c = truthy(self.ev(n.test, st))          # kept unsimplified in path conditions (z3.simplify rewrites seq.nth into forms that no longer match specs)
         out = []
         for cond, stmts in ((c, n.body), (z3.Not(c), n.orelse)):
             if z3.is_false(z3.simplify(cond)): continue
@@ -1067,8 +1079,10 @@ class Exec:
 
     def feasible(self, st):
         s = z3.Solver(); s.set('timeout', 5000)
-        for a in self.axioms: s.add(a)
-        for p in st.pc: s.add(p)
+        for a in self.axioms:
+            if not z3.is_quantifier(a): s.add(a)
+        for p in st.pc:
+            if not z3.is_quantifier(p): s.add(p)
         return s.check() != z3.unsat
 
     def s_Return(self, n, st):
